@@ -157,7 +157,7 @@ def run(ctx):
         rc = f.calls("realloc")
         if len(rc) != 1:
             raise AnalysisBroken("fill_requested_extension: realloc site")
-        cap = P.const_int(rc[0].a[1])
+        cap = None
         ext_name = None
         init = P.fn("websocket.c:websocket_init")
         for st in init.all_insts():
@@ -165,6 +165,20 @@ def run(ctx):
                 t = P.term(init, st.a[1])
                 if t[0] == "field" and t[3] == "name" and Q.mentions(t, lambda x: x[0] == "field" and x[3] == "extension_compression"):
                     ext_name = P.literal(st.a[0])
+        def size_of(t):
+            """the requested size as a number: constants, and strlen() of the configured extension name"""
+            if t[0] == "const":
+                return t[1]
+            if t[0] == "call" and t[1] == "strlen" and ext_name is not None and \
+                    Q.mentions(t[2][0], lambda x: x[0] == "field" and x[3] == "name"):
+                return len(ext_name)
+            if t[0] == "op" and t[1] in ("add", "sub", "mul") and len(t[2]) == 2:
+                x, y = size_of(t[2][0]), size_of(t[2][1])
+                if x is None or y is None:
+                    return None
+                return {"add": x + y, "sub": x - y, "mul": x * y}[t[1]]
+            return None
+        cap = size_of(P.term(f, rc[0].a[1]))
         if ext_name is None or cap is None:
             raise AnalysisBroken("extension name literal / realloc size not found")
         # value formats in write_to_response: '; ' + name, then '=' + up to two digits when value > 0
@@ -216,6 +230,9 @@ def run(ctx):
                                and a[3] == ("const", 0) and Q._poleq(a, p)) and not any(True for _ in v.calls()) for v in views)
         ctx.note("daemon constructs connections with compression level %s; level 0 returns before negotiating: %s (evidence, not a verdict)" % (lvl, early))
         run_memory(ctx, P, cg)
+        # the frame a (deflated) message goes out in: length form and announced length (shared with C12.3)
+        from .c12 import clause3_server_frames
+        clause3_server_frames(ctx, P)
     ctx.floor("C19.1 R-TABLE", 7)
     ctx.floor("C19.1 R-GATE", 9)
 
